@@ -161,6 +161,8 @@ def judgeC05 (op : ExtractOp) (out : String) : Expect :=
     | some w => .pred false w
 
 def ExtractOp.judge (prop : String) (op : ExtractOp) (out : String) : Expect :=
-  if prop == "C05" then judgeC05 op out else .noPanic
+  -- C13: every field's value is the direct decoding of the device memory, whatever was extracted before it and in
+  -- which order (the generator permutes and repeats fields) - the same oracle as C05
+  if prop == "C05" || prop == "C13" then judgeC05 op out else .noPanic
 
 end Modbus.Driver
